@@ -1275,3 +1275,32 @@ mut('C09', 'seed-hfrev-last-tag-wins', BRANCHES,
 mut('C09', 'micro-last-tag-wins', BRANCHES,
     "            dev_branch.micro = max(micro, dev_branch.micro)",
     "            dev_branch.micro = micro")
+mut('C03', 'seed-isneeded-zip-shifted', QUEUE,
+    "    for branch, dst_branch in zip(wbranches, job.git.cascade.dst_branches):",
+    "    for branch, dst_branch in zip(wbranches[1:],\n                                  job.git.cascade.dst_branches):")
+mut('C03', 'seed-stab-version-t-removed', BRANCHES,
+    "                  self.micro < other.micro)))\n\n    @property\n    def version_t(self):\n        return (self.major, self.minor, self.micro)\n",
+    "                  self.micro < other.micro)))\n")
+mut('C18', 'seed-version-t-truthiness', BRANCHES,
+    "        if self.micro is not None:\n            if self.hfrev is not None:",
+    "        if self.micro:\n            if self.hfrev:")
+mut('C06', 'seed-update-skips-when-in-sync', INTEG,
+    "        empty = not list(wbranch.get_commit_diff(wbranch.dst_branch))\n        try:",
+    "        empty = not list(wbranch.get_commit_diff(wbranch.dst_branch))\n        if wbranch.includes_commit(source.get_latest_commit()):\n            return\n        try:")
+mut('C06', 'seed-per-author-bypass-accumulates', SETTINGS,
+    "                (key, key in bypass_list) for key in self.BYPASS_LIST",
+    "                (key, key in found_elem) for key in self.BYPASS_LIST")
+mut('C04', 'per-author-bypass-accumulates', SETTINGS,
+    "                (key, key in bypass_list) for key in self.BYPASS_LIST",
+    "                (key, key in found_elem) for key in self.BYPASS_LIST")
+mut('C10', 'seed-init-settings-bulk-update', REACTOR,
+    "        for key, option in self.get_options().items():\n            job.settings[key] = copy(option.default)",
+    "        job.settings.update({key: option.default for key, option\n                             in self.get_options().items()})")
+mut('C12', 'seed-declined-cleanup-returns', GWF,
+    "        raise messages.PullRequestDeclined()\n    else:\n        raise messages.NothingToDo()",
+    "        raise messages.PullRequestDeclined()\n    else:\n        LOG.debug('nothing to clean')\n        return")
+mut('C15', 'seed-empty-wbranches-not-short-circuited', COMMANDS,
+    "    if not wbranches:\n        raise ResetComplete(couldnt_decline=[],\n                            active_options=job.active_options)\n\n", "")
+mut('C19', 'seed-declined-after-early-exits', GWF,
+    "    if job.pull_request.status == 'DECLINED':\n        handle_declined_pull_request(job)\n\n    # Handle the case when bitbucket is lagging and the PR was actually\n    # merged before.\n    if dst.includes_commit(src):\n        raise messages.NothingToDo()\n\n    # Check source branch still exists\n    # (It may have been deleted by developers)\n    if not src.exists():\n        raise messages.NothingToDo(job.pull_request.src_branch)\n",
+    "    # Handle the case when bitbucket is lagging and the PR was actually\n    # merged before.\n    if dst.includes_commit(src):\n        raise messages.NothingToDo()\n\n    # Check source branch still exists\n    # (It may have been deleted by developers)\n    if not src.exists():\n        raise messages.NothingToDo(job.pull_request.src_branch)\n\n    if job.pull_request.status == 'DECLINED':\n        handle_declined_pull_request(job)\n")
